@@ -15,7 +15,7 @@ def driver_args(tier, seed, phase):
 ASSUMPTIONS = [
     "one label of Model.Tdc per shared-state access of conn_traditional.go is the right atomicity (Go memory model, mutex/channel/atomic semantics)",
     "the harness realises an action list deterministically through a fake NetConn (gated Write, fed Read) and the verif schedule point tdc.exchange.written",
-    "net.Conn honours Close by failing a pending Read",
+    "net.Conn honours Close by failing a pending Read; a Read that has taken bytes off the socket returns them even if the socket is closed before the goroutine runs again",
 ]
 TRUSTED_BASE = [
     "hand-written LTS coq/Model/Tdc.v tied to pkg/upstream/transport/conn_traditional.go by scripted schedules run on the real connection "
@@ -24,10 +24,11 @@ TRUSTED_BASE = [
     "harness/tdcx (fake NetConn, script executor, generator), verif hooks in /repo (pkg/verifhook, zz_verif_export.go)",
 ]
 RULE = ("(ID-multiplexed connection) catalogue of the windows the property names (reply during Write, between Write and wait via the schedule point, while waiting, "
-        "followed by EOF / Close / cancel / another caller's write error, two callers) x TCP/UDP framing, each repeated because Go's select "
+        "followed by EOF / Close / cancel / another caller's write error, two callers; the reader descheduled inside Read or between its waiter lookup and the hand-over while the connection is closed under it by Close or a sibling's failing Write) x TCP/UDP framing, each repeated because Go's select "
         "is random, + seeded random schedules biased to holds and faults right after replies; non-trivial = a caller was parked before its wait "
         "or a fault/cancel occurs in the schedule; distinct = distinct Gallina literal. (non-pipelined transport) the same windows on the real ReuseConnTransport "
-        "(reply during Write, before the wait, followed by EOF / cancel / transport Close, on fresh and on pooled connections) + seeded random schedules")
+        "(reply during Write, before the wait, followed by EOF / cancel / transport Close, on fresh and on pooled connections; the reply read while the caller's Write is failing, "
+        "the caller descheduled inside the socket's Close until the reader has handed it over) + seeded random schedules")
 LEVEL_TEXT = ("Theorems for ALL label lists: once the reader has handed a reply to a call, the only thing that call can return is that reply "
               "(whatever follows: EOF, read/write error, Close, context expiry); the first hand-off cannot fail wherever the caller is; a call "
               "that holds a reply is not blocked and both its wait and its error exits return it. Replayed against the real connection on every run.")
